@@ -64,3 +64,24 @@ def excl(kid, in_region):
     if kf_open(kid):
         return not in_region
     return True
+
+
+class native:
+    """context manager: run the enclosed block without CrossHair's tracer (no-op outside an analysis).  For blocks whose inputs the
+    harness has already made concrete per path (if-chains over symbolic indices): C code and regular expressions then run as they do
+    in production instead of through the tool's models.  Nothing symbolic may be used inside."""
+    def __enter__(self):
+        self._cm = None
+        try:
+            from crosshair.tracers import NoTracing, is_tracing
+            if is_tracing():
+                self._cm = NoTracing()
+                self._cm.__enter__()
+        except ImportError:
+            pass
+        return self
+
+    def __exit__(self, *a):
+        if self._cm is not None:
+            return self._cm.__exit__(*a)
+        return False
